@@ -457,4 +457,25 @@ theorem catSlice_sem (sizes : List Nat) (start stop step : Nat) (hs : 0 < step) 
   have _ := hst; have _ := hstop
   exact catSlice_sem_general sizes start stop step hs
 
+
+/-! ### Slice.eager_subs, Variable branch: renaming keeps the window -/
+
+/-- Renaming the input of a (possibly strided) Slice preserves the window: same parameters, hence the same size of the
+    new input and the same value at every index. -/
+theorem slice_rename_keeps_window (s : Sl) (h : s.wf) :
+    sliceRename s = s ∧ (sliceRename s).size = s.size ∧ ∀ j, (sliceRename s).at j = s.at j := by
+  have he : sliceRename s = s := by
+    obtain ⟨a, b, c, d⟩ := s
+    simp only [Sl.wf] at h
+    simp only [sliceRename, mkSlice, Sl.mk.injEq, and_true, true_and]
+    omega
+  exact ⟨he, by rw [he], fun j => by rw [he]⟩
+
+/-- Rebuilding the window from its size instead is wrong for strides > 1: `Slice("k",1,6,2,10)(k="j")` would get
+    `Bint[2]` instead of `Bint[3]` (and is right for step 1). -/
+theorem slice_rename_by_size_witness :
+    (sliceRenameBySize (mkSlice 1 6 2 10)).size = 2 ∧ (mkSlice 1 6 2 10).size = 3 ∧
+    (sliceRename (mkSlice 1 6 2 10)).size = 3 ∧ (sliceRenameBySize (mkSlice 1 6 1 10)).size = (mkSlice 1 6 1 10).size := by
+  decide
+
 end FV.Props.C04
